@@ -5,7 +5,8 @@ import kdf, dumpgen
 THEOREMS = ["Kdf.Props.C16." + t for t in ("init_inv", "clear_inv", "vadd_chain", "vadd_fits_no_alloc", "vadd_trunc", "vadd_inbounds", "history_inv", "history_chain", "codes_documented", "status_roundtrip", "addrxlat2kdump_documented", "probe_never_noprobe",
     "directReadOk_tolerates", "directReadOk_empty", "pgtroot_story", "pgtroot_disciplined", "mapLinuxPgtroot_disciplined",
     "mapLinuxArm_disciplined", "mapLinuxArm_story", "xenver_disciplined", "xenver_tolerates", "derived_disciplined",
-    "derived_names_cause", "ctxMalloc_disciplined", "ctxMalloc_fail_message", "ctxMalloc_ok_silent", "s390OsInfoAlloc_story", "s390OsInfoAlloc_disciplined")]
+    "derived_names_cause", "ctxMalloc_disciplined", "ctxMalloc_fail_message", "ctxMalloc_ok_silent", "s390OsInfoAlloc_story", "s390OsInfoAlloc_disciplined",
+    "tryAltM_fst", "tryAltM_inv", "doOpM_fst", "doOpM_call_clean", "doOpM_fail_msg", "opTopM_fst", "op_success_clean", "op_failure_msg")]
 BUFSZ = [64, 80, 160]          # ERRBUF of addrxlat ctx, bitmap objects, kdump ctx
 
 
@@ -433,7 +434,7 @@ def flow_family(R, rng):
 
 def run(R):
     facts, changed = R.extract()
-    proof = R.prove(["Kdf.Props.C16"], THEOREMS) if THEOREMS else dict(obligations=0, discharged=0, broken=[], axioms={}, log="")
+    proof = R.prove(["Kdf.Props.C16", "Kdf.Props.C16Hist"], THEOREMS) if THEOREMS else dict(obligations=0, discharged=0, broken=[], axioms={}, log="")
     seqs = gen_err(R)
     lines, meta = [], []
     for si, (bs, seq) in enumerate(seqs):
@@ -455,6 +456,8 @@ def run(R):
     pool = concurrent.futures.ThreadPoolExecutor(2)
     fam_os = pool.submit(os_family, R, random.Random(R.rng.getrandbits(64)))
     fam_fl = pool.submit(flow_family, R, random.Random(R.rng.getrandbits(64)))
+    from props import c16hist
+    fam_hi = c16hist.start(R, random.Random(R.rng.getrandbits(64)))       # histories on one context, own thread
     exe = R.build_harness("s_err", ["s_err.c"], lib=lib, cflags=cflags, ldflags=[kdf.ALLOC_WRAP])
     rc, out, err = R.run_harness(exe, stdin_text=text)
     impl = kdf.obs(out)
@@ -514,6 +517,14 @@ def run(R):
     fl_fail, fl_lines, fl_want, fl_m, fl_stats = fam_fl.result()
     pool.shutdown()
     os_stats.pop("verdicts", None)
+    # ---- histories on one context: re-set-up after tolerated failures, alternatives of a chain link (tools/props/c16hist.py)
+    hist_stats, hist_fail = {}, None
+    for hname, hf, hs in fam_hi.result():
+        hist_stats[hname] = hs
+        if hf and not (fail or api_fail or os_fail or fl_fail or hist_fail):
+            hist_fail = hf
+            rp = dict(hf[1]); fi = rp.pop("found_input", True); rp["broken_theorems"] = proof["broken"]
+            R.violation(hf[0], rp, found_input=fi)
     for f in (os_fail, fl_fail):
         if f and not fail and not api_fail:
             rp = dict(f[1]); rp["broken_theorems"] = proof["broken"]
@@ -552,7 +563,7 @@ def run(R):
                rule="err_add sequences at the three real inline sizes: every message length 0..2*bufsz+3 as first message and a grid of second messages, "
                     "each with realloc succeeding and failing; random chains of up to 12 prepends/clears; non-trivial = distinct (bufsz, op, length, alloc outcome)",
                traces_validated_against_impl=len(impl) + len(flow_impl), api_monitor_observations=api_n, correspondence_first_diff=mism, case_kinds=kinds,
-               os_setup_family=os_stats, flow_family=fl_stats, flow_correspondence_first_diff=flow_mism,
+               os_setup_family=os_stats, flow_family=fl_stats, history_family=hist_stats, flow_correspondence_first_diff=flow_mism,
                flow_rule="addrxlat_sys_os_init + 3 conversions on generated images of x86_64 (Linux, Xen), ia32, riscv64, aarch64, arm, with get_page "
                          "failing with each of nodata/notpresent/nomem/invalid/notimpl/custom(CORRUPT)/custom(EOF) at the pages the set-up reads and every "
                          "symbol look-up refused in turn; root page table at a kernel virtual address the read callback advertises (direct_read_ok) on arm "
@@ -565,4 +576,4 @@ def run(R):
                           "allocations are parameters (status + the message they leave), assumed to obey the property themselves (Part.wf)",
                           "monitor-only (implementation-only, no model twin): x86_64/ia32/ppc64/s390x OS set-up, conversions after the set-up, the "
                           "one-story rule on numbered callback failures (harness/s_os.c C16 mode), allocation-failure runs of the flow family, "
-                          "the API scenarios of harness/s_fmt.c and s_hist.c"]
+                          "the API scenarios of harness/s_fmt.c and s_hist.c"] + c16hist.ASSUMPTIONS
